@@ -96,21 +96,14 @@ Definition s_sort (a : args) : list (list Z) :=
 (* ---- lexsort_check: [ncols] ([type] [layout] [values] [nf; desc])^ncols [limit?] [out] -> [1] | [0; code] *)
 Fixpoint get_cols (k : nat) (stride : nat) (a : args) : list (list (list Z)) :=
   match k with O => [] | S k' => firstn stride a :: get_cols k' stride (skipn stride a) end.
-Definition transpose_rows (n : nat) (cols : list (list oval)) : list (list oval) :=
-  map (fun i => map (fun c => slot c i) cols) (seq 0 n).
-Fixpoint lex_rows (opts : list (bool * bool)) (x y : list oval) : comparison :=
-  match opts, x, y with
-  | (nf, desc) :: o', p :: x', q :: y' => match cmp_opts nf desc p q with Eq => lex_rows o' x' y' | c => c end
-  | _, _, _ => Eq
-  end.
+(* rows are row numbers; the comparator is LexicographicalComparator::compare = [lex_idx] over the columns *)
 Definition s_lexsort_check (a : args) : list (list Z) :=
   let k := argn 0 a in
   let cs := get_cols k 4 (tl a) in
-  let cols := map (fun c => parse_col (arg 2 c)) cs in
-  let opts := map (fun c => (nf_of (arg 3 c), desc_of (arg 3 c))) cs in
+  let cols : list column := map (fun c => (nf_of (arg 3 c), desc_of (arg 3 c), parse_col (arg 2 c))) cs in
   let rest := skipn (4 * k) (tl a) in
-  let n := match cols with c0 :: _ => List.length c0 | [] => O end in
-  ok_out (sort_check (lex_rows opts) (transpose_rows n cols) (optn (arg 0 rest)) (nats_of (arg 1 rest))).
+  let n := match cols with (_, _, c0) :: _ => List.length c0 | [] => O end in
+  ok_out (sort_check (lex_idx cols) (seq 0 n) (optn (arg 0 rest)) (nats_of (arg 1 rest))).
 
 (* ---- partial_sort_check: [values (integers)] [limit] [out: the index vector after partial_sort] -> [1] | [0; code]
         out must be a permutation of 0..n whose first `limit` entries satisfy the sort predicate *)
@@ -124,21 +117,18 @@ Definition s_partial_sort_check (a : args) : list (list Z) :=
        end.
 
 (* ---- rank: [type] [layout] [values] [nf; desc] -> [ranks] *)
-Fixpoint val_eqb (fuel : nat) (a b : val) : bool :=
-  match fuel with
-  | O => false
-  | S f =>
-      match a, b with
-      | VInt x, VInt y => (x =? y)%Z
-      | VFloat h x, VFloat h' y => (h =? h')%Z && (x =? y)%Z      (* is_eq on floats: to_bits() == to_bits() *)
-      | VBytes x, VBytes y => list_eqb x y
-      | _, _ => false
-      end
+(* ArrowNativeTypeOp::is_eq / PartialEq::eq of the rankable types (floats: to_bits() == to_bits()) *)
+Definition val_eqb (a b : val) : bool :=
+  match a, b with
+  | VInt x, VInt y => (x =? y)%Z
+  | VFloat h x, VFloat h' y => (h =? h')%Z && (x =? y)%Z
+  | VBytes x, VBytes y => list_eqb x y
+  | _, _ => false
   end.
 Definition d_rank (a : args) : list (list Z) :=
   let x := parse_col (arg 2 a) in let nf := nf_of (arg 3 a) in let desc := desc_of (arg 3 a) in
   if existsb (fun t => (t =? 12)%Z) (arg 0 a) then [ zs_of_nats (boolean_rank nf desc x) ]
-  else [ zs_of_nats (rank_m isort (m_vcmp bytes_cmp false) (val_eqb 1) nf desc x) ].
+  else [ zs_of_nats (rank_m isort (vcmp false) (fun u v => is_eq_c (vcmp false u v)) nf desc x) ].
 Definition s_rank (a : args) : list (list Z) :=
   let x := parse_col (arg 2 a) in
   [ zs_of_nats (rank_spec (vcmp false) (nf_of (arg 3 a)) (desc_of (arg 3 a)) x) ].
@@ -161,7 +151,7 @@ Definition ser_obools (l : list (option bool)) : list (list Z) :=
 Definition m_is_eq (ty : list Z) (a b : val) : bool :=
   match a, b with
   | VBytes x, VBytes y => if is_view ty then view_eq x y else list_eqb x y
-  | _, _ => val_eqb 1 a b
+  | _, _ => val_eqb a b
   end.
 Definition m_is_lt (ty : list Z) (a b : val) : bool := is_lt_c (m_vcmp (bc_of ty) false a b).
 Definition d_kernel (a : args) : list (list Z) :=
